@@ -39,6 +39,14 @@ import (
 var c19CIDRs = []string{
 	"10.1.0.0/16", "10.1.2.0/24", "10.0.0.0/8", "fd00:1::/32", "192.168.7.0/24",
 	"10.1.2.3/32", "172.16.0.0/12", "fd00::/8", "2001:db8::/32", "2001:db8:0:1::/64",
+	"::/0", "0.0.0.0/0", "::/1",
+}
+
+// the same IPv4 networks written as IPv4-mapped IPv6 prefixes (net.ParseCIDR
+// and IPNet.String treat them as the IPv4 network)
+var c19MappedSpelling = map[string]string{
+	"10.1.0.0/16": "::ffff:10.1.0.0/112", "10.0.0.0/8": "::ffff:10.0.0.0/104", "192.168.7.0/24": "::ffff:192.168.7.0/120",
+	"10.1.2.0/24": "::ffff:10.1.2.0/120", "172.16.0.0/12": "::ffff:172.16.0.0/108",
 }
 
 // the same networks written with host bits set / other letter case
@@ -131,6 +139,10 @@ type c19world struct {
 
 func mustPrefix(s string) netip.Prefix {
 	p, err := netip.ParsePrefix(s)
+	if err == nil && p.Addr().Is4In6() && p.Bits() >= 96 {
+		// an IPv4-mapped prefix names the IPv4 network
+		return netip.PrefixFrom(p.Addr().Unmap(), p.Bits()-96).Masked()
+	}
 	if err != nil {
 		// host bits / case variants: go through net.ParseCIDR like an operator's tool would
 		_, n, e2 := net.ParseCIDR(s)
@@ -717,6 +729,9 @@ func (w *c19world) planOp(remote bool) *opPlan {
 	w.lastCIDR = p.cidr
 	if alt, ok := c19AltSpelling[p.cidr]; ok && simrt.Chance(1, 5, "alt-spelling") {
 		p.cidr = alt
+	} else if alt, ok := c19MappedSpelling[p.cidr]; ok && simrt.Chance(1, 5, "mapped-spelling") {
+		p.cidr = alt
+		simrt.Probe("c19_mapped_cidr_spelling")
 	}
 	p.action = []string{"add", "remove"}[simrt.Choose(2, "action")]
 	p.metric = []uint16{1, 7, 1, 0}[simrt.Choose(4, "metric")]
